@@ -300,7 +300,50 @@ def q3l(pk: int, ck: int, linked: bool, first: bool) -> str:
     return q.run(_q3l, (pk, ck, linked, first))
 
 
+# ---------------------------------------------------------------- Q3u names that look alike are different files
+LOOK = [("caf\u00e9.txt", "cafe\u0301.txt", "composed / decomposed accent"), ("Data.txt", "data.txt", "letter case"), ("x.txt", "x.txt ", "trailing blank"),
+        ("\u212b.dat", "\u00c5.dat", "angstrom sign / A with ring"), ("a/b.txt", "a/b.txt", "(control: the same name)")]
+
+
+def _q3u(k, swap):
+    """A writes one name, B reads the other, a source file of that other name exists: B depends on A iff the two
+    names are the same string."""
+    if not q.in_range(k, len(LOOK)):
+        return q.SKIP
+    n1, n2, label = q.pick(LOOK, k)
+    if swap:
+        n1, n2 = n2, n1
+    w = vfs.VFS()
+    w.dirs.update({"/vfs/p", "/vfs/p/a"})
+    w.add("/vfs/p/" + n2, 5, "an existing source file")
+    vfs.install(w)
+    try:
+        A = Target(name="A", inputs=[], outputs=[n1], options={}, working_dir="/vfs/p", spec="x")
+        B = Target(name="B", inputs=[n2], outputs=[], options={}, working_dir="/vfs/p", spec="y")
+        g = Graph.from_targets({"A": A, "B": B}, CachedFilesystem())
+        same = n1 == n2
+        if (A in g.dependencies[B]) != same:
+            return "%s: A writes %r, B reads %r: edge B->A is %s" % (label, n1, n2, A in g.dependencies[B])
+        ends = set(t.name for t in g.endpoints())
+        if ends != ({"B"} if same else {"A", "B"}):
+            return "%s: endpoints %s" % (label, sorted(ends))
+        if A.flattened_outputs() != ["/vfs/p/" + n1] or B.flattened_inputs() != ["/vfs/p/" + n2]:
+            return "%s: declared %r / %r, flattened to %r / %r" % (label, n1, n2, A.flattened_outputs(), B.flattened_inputs())
+        return ""
+    finally:
+        vfs.uninstall()
+
+
+def q3u(k: int, swap: bool) -> str:
+    """
+    post: _ == ""
+    """
+    return q.run(_q3u, (k, swap))
+
+
 QUERIES = [
+    {"name": "Q3u", "fn": q3u, "shards": [{}], "timeout": 120,
+     "bound": "catalogue of %d pairs of file names that look alike (Unicode normalisation forms, letter case, trailing blank, compatibility characters) and one control pair" % len(LOOK)},
     {"name": "Q3l", "fn": q3l, "shards": [{}], "timeout": 300,
      "bound": "producer and consumer of one file below data/, each defined as plain target / template with working directory data / template in the workflow directory / map with a template; data a directory or a symbolic link to a directory elsewhere; both definition orders"},
     {"name": "Q3a", "fn": q3a,
